@@ -120,7 +120,7 @@ def compile_group(ctx, g: Group):
 
 def cbmc_cmd(g: Group, binary, engine, trace=False, prop=None):
     cmd = ['cbmc', binary] + (g.checks if g.checks is not None else DEFAULT_CHECKS)
-    cmd += ['--json-ui', '--verbosity', '6']
+    cmd += ['--json-ui', '--verbosity', '6', '--drop-unused-functions']
     if g.object_bits:
         cmd += ['--object-bits', str(g.object_bits)]
     cmd += g.cbmc_flags + ENGINES[engine]
@@ -267,7 +267,7 @@ def verify_group(ctx, g: Group):
         c = classify(r)
         if c == 'reach':
             reach_seen = True
-            reach_failed = r['status'] == 'FAILURE'
+            reach_failed = reach_failed or r['status'] == 'FAILURE'
             continue
         sl = r.get('sourceLocation', {})
         obl.append({'name': r['property'], 'description': r.get('description', ''), 'status': r['status'],
